@@ -140,6 +140,14 @@ class Run:
         self.pc.append(t)
         self.solver.add(t)
 
+    def quick_feasible(self, ms=1500):
+        """cheap feasibility probe: False only when z3 proves the path condition unsat within the budget"""
+        self.solver.set("timeout", ms)
+        try:
+            return self.check() != z3.unsat
+        finally:
+            self.solver.set("timeout", SOLVER_TIMEOUT_MS)
+
     def check(self, extra=None):
         import time
         t0 = time.time()
